@@ -1091,17 +1091,19 @@ def lines_cli_malformed(cases, workdir, stream, binary):
 # --------------------------------------------------------------------------------------------------
 # stream: cli-fault (C16): failures of creating / writing the output file
 
+FAULT_SIMPLE = {"format": "X-coursedata-simple", "version": "1.0",
+              "participants": [{"name": f"P{i}", "choices": [{"course": i % 2, "penalty": 0}, {"course": (i + 1) % 2, "penalty": 1}]} for i in range(6)],
+              "courses": [{"name": "A", "num_max": 5, "num_min": 1, "instructors": []}, {"name": "B", "num_max": 5, "num_min": 1, "instructors": []}]}
+
+
 def stream_cli_fault(seed, tier, workdir, stream):
     r = random.Random(seed * 67867967 + 23)
     cases = []
-    # a simple instance and an export that certainly have a solution
-    simple = {"format": "X-coursedata-simple", "version": "1.0",
-              "participants": [{"name": f"P{i}", "choices": [{"course": i % 2, "penalty": 0}, {"course": (i + 1) % 2, "penalty": 1}]} for i in range(6)],
-              "courses": [{"name": "A", "num_max": 5, "num_min": 1, "instructors": []}, {"name": "B", "num_max": 5, "num_min": 1, "instructors": []}]}
+    # a simple instance (FAULT_SIMPLE) and an export (TestAka) that certainly have a solution
     for fmt in ["simple", "cde"]:
         for fault in ["ok", "missing-dir", "is-dir", "name-too-long", "notdir-component", "dev-full", "readonly-dir", "fsize-limit", "stale-longer"]:
             for pr in [False, True]:
-                cases.append({"fmt": fmt, "fault": fault, "print": pr, "simple": simple, "limit": r.choice([1, 50, 200])})
+                cases.append({"fmt": fmt, "fault": fault, "print": pr, "limit": r.choice([1, 50, 200])})
     return cases
 
 
@@ -1111,10 +1113,10 @@ def lines_cli_fault(cases, workdir, stream, binary):
     cde_doc = os.path.join("/repo", "src", "io", "test_ressources", "TestAka_partial_export_event.json")
     try:
         for i, c in enumerate(cases):
-            out.append({"kind": "case", "stream": stream, "case": i, "corpus": False, "data": {k: v for k, v in c.items() if k != "simple"}})
+            out.append({"kind": "case", "stream": stream, "case": i, "corpus": False, "data": c})
             inp = os.path.join(d, "in.json")
             if c["fmt"] == "simple":
-                json.dump(c["simple"], open(inp, "w"))
+                json.dump(FAULT_SIMPLE, open(inp, "w"))
                 args = ["--num-threads", "1"]
             else:
                 shutil.copy(cde_doc, inp)
